@@ -22,6 +22,29 @@ Definition run_obs (W : wk) (init : state) (fuel : nat) (prog : list stmt) : obs
   | (Unsup w, st) => (ObsUnsup w, out_string st)
   end.
 
+(* a prelude evaluated once: the state it leaves and the scope it ran in *)
+Definition run_prelude (W : wk) (init : state) (fuel : nat) (prelude : list stmt) : option (state * nat) :=
+  match alloc_frame [] (Some 0) init with
+  | (Ok e, st) => match r_body (level W fuel) prelude e st with
+                  | (Ok _, st') => Some ({| heap := heap st'; frames := frames st'; funcs := funcs st';
+                                            biters := biters st'; out := []; inp := inp st' |}, e)
+                  | _ => None
+                  end
+  | _ => None
+  end.
+
+Definition run_obs_from (W : wk) (base : option (state * nat)) (fuel : nat) (prog : list stmt) : obs * string :=
+  match base with
+  | None => (ObsUnsup "prelude did not evaluate in the model", EmptyString)
+  | Some (init, outer) =>
+    match run_program W fuel prog outer init with
+    | (Ok v, st) => (ObsVal (inspect_v st v), out_string st)
+    | (Er k m, st) => (ObsErr k m, out_string st)
+    | (Fuel, st) => (ObsFuel, out_string st)
+    | (Unsup w, st) => (ObsUnsup w, out_string st)
+    end
+  end.
+
 (* what the harness observed: kind ("value" | "error"), repr or error kind, message, stdout *)
 Record impl_obs := { i_kind : string; i_a : string; i_b : string; i_out : string }.
 
@@ -40,12 +63,12 @@ Definition verdict (cmp_msg : bool) (m : obs * string) (i : impl_obs) : nat :=
 
 Definition case := (nat * list stmt * impl_obs)%type.
 
-Definition judge (W : wk) (init : state) (fuel : nat) (cmp_msg : bool) (cs : list case)
+Definition judge (W : wk) (base : option (state * nat)) (fuel : nat) (cmp_msg : bool) (cs : list case)
   : list (nat * nat) :=
-  map (fun c => match c with (i, prog, io) => (i, verdict cmp_msg (run_obs W init fuel prog) io) end) cs.
+  map (fun c => match c with (i, prog, io) => (i, verdict cmp_msg (run_obs_from W base fuel prog) io) end) cs.
 
-Definition details (W : wk) (init : state) (fuel : nat) (cmp_msg : bool) (cs : list case)
+Definition details (W : wk) (base : option (state * nat)) (fuel : nat) (cmp_msg : bool) (cs : list case)
   : list (nat * (obs * string)) :=
   flat_map (fun c => match c with (i, prog, io) =>
-     let m := run_obs W init fuel prog in
+     let m := run_obs_from W base fuel prog in
      match verdict cmp_msg m io with 0 => [] | _ => [(i, m)] end end) cs.
